@@ -58,7 +58,8 @@ def run(sid, tier="quick"):
     bak = f"/tmp/sr_{sid}_generated"
     regen = pid in ("C08", "C20")      # these checks rewrite Generated/C08*, C20*; PyK_<pid>.lean is restored per file below
     pyk = os.path.join(gen, f"PyK_{pid}.lean")
-    pyk_bak = open(pyk).read() if os.path.exists(pyk) else None
+    r_, pyk_head = sh(f"git -C {VERIF} show HEAD:lean/PybropsModel/Generated/PyK_{pid}.lean")
+    pyk_bak = pyk_head if (r_ == 0 and os.path.exists(pyk)) else None     # the committed snapshot (kernels of /repo HEAD)
     if regen:
         shutil.rmtree(bak, ignore_errors=True)
         shutil.copytree(gen, bak)      # regenerated files are put back exactly as they were before this run
